@@ -108,7 +108,9 @@ fn load_package(
     }
 
     for path in read_gom_sources(package_dir)? {
-        if entry_path.is_some_and(|entry| entry == path) {
+        // The entry file is one of the files of this directory. Compare by file name:
+        // `main.gom`, `./main.gom` and an absolute spelling all denote it.
+        if entry_path.is_some_and(|entry| entry.file_name() == path.file_name()) {
             continue;
         }
         let src = fs::read_to_string(&path)
